@@ -184,6 +184,7 @@ type NativeRunner struct {
 	Dir     string // module dir in which to build
 	PkgPath string // harness package import path
 	Entries []string
+	Race    bool // build with the race detector; a report counts as failing "race-detector"
 	bin     string
 	err     error
 	once    sync.Once
@@ -206,7 +207,12 @@ func (n *NativeRunner) build() {
 			return
 		}
 		n.bin = filepath.Join(n.cmdDir, "replay.bin")
-		out, err := run(n.Dir, "go", "build", "-o", n.bin, "./"+filepath.ToSlash(strings.TrimPrefix(n.cmdDir, n.Dir+"/")))
+		args := []string{"build", "-o", n.bin}
+		if n.Race {
+			args = append(args, "-race")
+		}
+		args = append(args, "./"+filepath.ToSlash(strings.TrimPrefix(n.cmdDir, n.Dir+"/")))
+		out, err := run(n.Dir, "go", args...)
 		if err != nil {
 			n.err = fmt.Errorf("native replay build failed: %v\n%s", err, out)
 		}
@@ -253,6 +259,15 @@ func (n *NativeRunner) Run(cases []ReplayCase, timeout time.Duration) ([]ReplayO
 			break
 		}
 		outs = append(outs, o)
+	}
+	if n.Race && strings.Contains(errb.String(), "DATA RACE") {
+		for i := range outs {
+			outs[i].Failed = append(outs[i].Failed, "race-detector")
+		}
+		if len(outs) == 0 {
+			outs = append(outs, ReplayOutcome{Entry: cases[0].Entry, Failed: []string{"race-detector"}})
+		}
+		werr = nil
 	}
 	if werr != nil && len(outs) < len(cases) {
 		// the case after the last outcome crashed or hung the process
